@@ -41,7 +41,8 @@
                                                                         C12_cleanup_leaves_connected
    the reference object keeps its emission stacks balanced              C12_reference_stacks_balanced
    fuel: every history completes (no OutOfFuel) from some fuel on,      C12_enough_fuel_exists, C12_reference_step_terminates,
-   and a finished run is the same for every larger fuel                 C12_fuel_irrelevant_model, C12_fuel_irrelevant_reference
+   and a finished run is the same for every larger fuel (reference       C12_reference_history_terminates,
+   object: under every policy, also one that changes with the history)   C12_fuel_irrelevant_model, C12_fuel_irrelevant_reference
    (representation) no node is unlinked from a signal's slot list       C12_no_unlink_while_emitting (each of the seven library
    while an emission of that signal is in progress - what makes the     primitives; only ~Emitter of that emitter and the end of the
    model's "iterator = index" faithful to the C++ list iterators:        outermost emission remove nodes), C12_slot_keeps_nodes,
